@@ -1,13 +1,13 @@
 CONSTANTS
-  Family = "fields"
+  Family = "lists"
   MaxDelegates = 255
   CurrentVersion = 1
-  MaxEdits = 0
-  EditDids = {}
-  EditThresholds = {}
-  Payloads = {"absent", "bad", "empty", "project", "custom", "nonnfc", "float", "badid"}
-  ListIds = {}
-  ListThresholds = {}
+  MaxEdits = 1
+  EditDids = {1, 256}
+  EditThresholds = {0, 255, 256}
+  Payloads = {"project"}
+  ListIds = {2, 3, 5, 8, 11, 13}
+  ListThresholds = {0, 1, 255, 256}
   JsonDocs <- MCJsonDocs
 INIT Init
 NEXT Next
